@@ -709,7 +709,7 @@ static void h_gen_start (int level) {
     h_gen_on = 1;
     H_Q ();
   }
-  MIR_gen_set_optimize_level (h_ctx, (unsigned) level);
+  if (level >= 0) MIR_gen_set_optimize_level (h_ctx, (unsigned) level);
 }
 
 static void h_step_link (const char *iface, int level) {
@@ -757,6 +757,7 @@ static void h_step_genall (int level) {
 }
 
 static long h_run_result;
+static int h_run_mode = -1; /* -1: as linked; 0: MIR_interp; 1: through func_item->addr */
 static void h_step_run (const char *fname, long arg) {
   static char *h_argv[] = {"prog", NULL};
   static char *h_env[] = {NULL};
@@ -770,7 +771,7 @@ static void h_step_run (const char *fname, long arg) {
   h_run_active = 1;
   if ((jr = setjmp (h_run_jmp)) == 0) {
     size_t nargs = f->u.func->nargs;
-    if (h_iface == 0) {
+    if (h_run_mode == 0 || (h_run_mode < 0 && h_iface == 0)) {
       MIR_val_t v, a[3];
       v.i = 0;
       if (nargs == 0)
@@ -834,6 +835,40 @@ static void h_step_lrefcheck (int values_p) {
           }
       }
     }
+  H_Q ();
+}
+
+/* tiered execution of one function: MIR_gen / MIR_set_*_interface on a single item after the link */
+static void h_step_gen1 (const char *fname, int level) {
+  MIR_item_t f;
+  h_need_ctx ();
+  if ((f = h_find_func (fname)) == NULL) {
+    h_label ("gen1: no such function");
+    return;
+  }
+  h_gen_start (level);
+  MIR_gen (h_ctx, f);
+  H_Q ();
+}
+
+static void h_step_setif (const char *fname, const char *iface) {
+  MIR_item_t f;
+  h_need_ctx ();
+  if ((f = h_find_func (fname)) == NULL) {
+    h_label ("setif: no such function");
+    return;
+  }
+  if (strcmp (iface, "interp") == 0)
+    MIR_set_interp_interface (h_ctx, f);
+  else {
+    h_gen_start (-1);
+    if (strcmp (iface, "gen") == 0)
+      MIR_set_gen_interface (h_ctx, f);
+    else if (strcmp (iface, "lazy") == 0)
+      MIR_set_lazy_gen_interface (h_ctx, f);
+    else
+      MIR_set_lazy_bb_gen_interface (h_ctx, f);
+  }
   H_Q ();
 }
 
@@ -1377,6 +1412,12 @@ int main (int argc, char **argv) {
     else if (strcmp (st, "genall") == 0) h_step_genall (a1 ? atoi (a1) : 2);
     else if (strcmp (st, "run") == 0) h_step_run (a1 ? a1 : "main", a2 ? atol (a2) : 10);
     else if (strcmp (st, "lrefcheck") == 0) h_step_lrefcheck (a1 != NULL && a1[0] == 'v');
+    else if (strcmp (st, "irun") == 0 || strcmp (st, "grun") == 0) {
+      h_run_mode = st[0] == 'i' ? 0 : 1;
+      h_step_run (a1 ? a1 : "main", a2 ? atol (a2) : 10);
+      h_run_mode = -1;
+    } else if (strcmp (st, "gen1") == 0) h_step_gen1 (a1 ? a1 : "main", a2 ? atoi (a2) : 2);
+    else if (strcmp (st, "setif") == 0) h_step_setif (a1 ? a1 : "main", a2 ? a2 : "lazy");
     else if (strcmp (st, "genfinish") == 0) h_step_genfinish ();
     else if (strcmp (st, "finish") == 0) h_step_finish ();
     else if (strcmp (st, "varr") == 0) h_step_varr (a1);
